@@ -91,6 +91,14 @@ Theorem C03_remove_unknown_refuted :
 Proof. exact remove_unknown_refuted. Qed.
 Print Assumptions C03_remove_unknown_refuted.
 
+(* a scalar reassigned in a branch reaches an LCD glyph bitmap with its stale value *)
+Theorem C03_stale_glyph_refuted :
+  firmware_outputs w_glyph [1%nat] = Some [VTuple [VInt 1; VInt 0; VInt 0; VInt 0; VInt 0; VInt 0; VInt 0; VInt 0]] /\
+  python_outputs w_glyph [1%nat] = Some [VTuple [VInt 2; VInt 0; VInt 0; VInt 0; VInt 0; VInt 0; VInt 0; VInt 0]] /\
+  firmware_outputs w_glyph [0%nat] = python_outputs w_glyph [0%nat] /\ is_fresh w_glyph = false.
+Proof. exact stale_glyph_refuted. Qed.
+Print Assumptions C03_stale_glyph_refuted.
+
 (* inside the guard - the ghost flag [is_fresh] of the environment model: no assignment / append / remove to a name
    with a known transpile-time value inside an if / while / for body, append and remove only with arguments known at
    transpile time (and present, for remove), no variable named like a builtin the evaluator interprets, every folded
